@@ -194,6 +194,10 @@ def cells(tier, seed):
                     scales = ["s0.05", "s0.6", "vec"]
                 if kernel == "MH" and t == "gauss2c":
                     scales.append("covprop")
+                if kernel == "CWMH" and t in ("gauss2c", "banana2"):
+                    # user-supplied component proposals: a conditional distribution whose conditioning variables come out
+                    # scale-first, and a plain callable (both are the documented x_j + s_j * xi_j mechanism)
+                    scales += ["userprop-dist-sl", "userprop-callable"]
                 if kernel == "MH" and t in ("gauss2c", "gauss1"):
                     scales.append("userprop-shifted")    # user-defined proposal, symmetry flag unset, increments NOT symmetric
                 for sc in scales:
@@ -215,6 +219,8 @@ def _scale_value(cell, dim):
         return np.array([0.3, 0.8, 0.5])[:dim]
     if sc in ("covprop", "userprop-shifted"):
         return 0.6
+    if sc in ("userprop-dist-sl", "userprop-callable"):
+        return np.array([0.3, 0.8, 0.5])[:dim]
     return float(sc[1:])
 
 
@@ -231,6 +237,10 @@ class Adapter:
         self.proposal = None
         if cell["scale"] == "covprop":
             self.proposal = cuqi.distribution.Gaussian(np.zeros(self.dim), np.array([[1.0, 0.3], [0.3, 0.5]]))
+        if cell["scale"] == "userprop-dist-sl":
+            self.proposal = cuqi.distribution.Normal(mean=lambda scale, location: location, std=lambda scale, location: scale, geometry=self.dim)
+        if cell["scale"] == "userprop-callable":
+            self.proposal = lambda x, s: x + s * np.random.standard_normal(len(x))
         if cell["scale"] == "userprop-shifted":
             # increments 0.5 + N(0, I): not symmetric about 0, and the user did not declare any symmetry (is_symmetric=None).
             # The sampler must refuse it, or account for q(x|x')/q(x'|x) in its acceptance probability.
@@ -399,6 +409,8 @@ def eval_cell(cell):
         comp += "(x0=%s)" % cell["x0rep"]
     if cell["scale"] == "userprop-shifted":
         comp += "(proposal=user,symmetry-undeclared)"
+    if cell["scale"] in ("userprop-dist-sl", "userprop-callable"):
+        comp += "(proposal=%s)" % cell["scale"][9:]
     fails = {}   # (op) -> {hist kinds}; first (message, focus, detail) per (op, hist)
     nontriv = False
 
